@@ -136,6 +136,18 @@ class RefMonitor:
 # ----------------------------------------------------------------------------
 # bodies
 # ----------------------------------------------------------------------------
+def enc(v):
+    """tokens of the Task mode are futures carrying their number"""
+    t = getattr(v, "tag", None)
+    return t if isinstance(t, int) else C.enc(v)
+
+
+def xc(e):
+    if type(e).__name__ == "OOBData" and isinstance(getattr(e.data, "tag", None), int):
+        return [10, e.data.tag]
+    return C.exc_code(e)
+
+
 class _Render(C._Render):
     def stmts(self, p, ind):
         if p[0] == "oob":
@@ -163,7 +175,7 @@ class MBody:
         self.ref = ref
         self.log: list = []
         self.kept: list = []
-        self.ns = {"L": self.log, "enc": C.enc, "xc": C.exc_code, "tok": C.tok, "X": C.exc_class,
+        self.ns = {"L": self.log, "enc": enc, "xc": xc, "tok": C.tok, "X": C.exc_class,
                    "M": self.M, "keep": self.keep}
         if p is not None:
             exec(compile(render(p), "<mprog>", "exec"), self.ns)
@@ -200,7 +212,10 @@ class MBody:
         """coroutine object of one Monitor call on the coroutine `sub`"""
         mon = self.M[m]
         k = cl[0]
-        if self.ref or not bound:
+        if self.ref and bound:
+            # BoundMonitor's methods are `return await self.monitor.<method>(self.coro, ..)`
+            return self.keep(C.lift(self.call(m, sub, cl, 0)))
+        if not bound:
             tgt, args = mon, (sub,)
         else:
             import asynkit
@@ -228,18 +243,18 @@ class MBody:
                 k = it[0]
                 if k == "call":
                     r = await self.call(it[1], sub, it[2], it[3] if len(it) > 3 else 0)
-                    Lg.append([3, C.enc(r)])
+                    Lg.append([3, enc(r)])
                 elif k == "oob":
                     Lg.append([4, it[1], C.enc(it[2])])
                     r = await self.M[it[1]].oob(it[2])
-                    Lg.append([1, C.enc(r)])
+                    Lg.append([1, enc(r)])
                 elif k == "tok":
                     r = await self.ns["tok"](it[1])
-                    Lg.append([1, C.enc(r)])
+                    Lg.append([1, enc(r)])
                 else:
                     Lg.append([0, it[1]])
             except Exception as e:
-                Lg.append([2, C.exc_code(e)])
+                Lg.append([2, xc(e)])
         return None
 
 
@@ -333,7 +348,7 @@ def coq_rawop(o):
 
 
 def coq_raw(case):
-    calls = [f"({L.z(c['m'])}, {coq_call(c['cl'])}, {coq_opt(c.get('probe'), coq_call)}, "
+    calls = [f"({L.z(c['m'])}, {L.boolean(bool(c.get('b', 0)))}, {coq_call(c['cl'])}, {coq_opt(c.get('probe'), coq_call)}, "
              f"{L.lst([coq_rawop(o) for o in c['ops']])})" for c in case["calls"]]
     return f"({coq_mprog(case['prog'])}, {L.nat(case['nm'])}, {L.lst(calls)})"
 
@@ -542,10 +557,16 @@ def run_task(case, b: MBody):
     with w:
         loop = w.loop
 
-        async def ftok(y):
+        @types.coroutine
+        def ftok(y):
+            # `await future` whose answer may also come from somebody who is not the Task (a
+            # monitor resuming a coroutine that was left at a real suspension): same
+            # behaviour as the token helper of the raw mode
             f = loop.create_future()
             f.tag = y
-            return await f
+            f._asyncio_future_blocking = True
+            v = yield f
+            return f.result() if f.done() else v
         b.ns["tok"] = ftok
         top = build_node(b, case["node"])
         task = w.create_task(top)
@@ -557,9 +578,9 @@ def run_task(case, b: MBody):
                 if task.cancelled():
                     out = [2, [2]]
                 elif task.exception() is not None:
-                    out = [2, C.exc_code(task.exception())]
+                    out = [2, xc(task.exception())]
                 else:
-                    out = [1, C.enc(task.result())]
+                    out = [1, enc(task.result())]
                 trace.append([b.drain(), out, b.states()])
                 break
             f = task._fut_waiter
@@ -862,7 +883,7 @@ def mark(case):
     return case
 
 
-def random_items(rng, level, nm, n, cnt):
+def random_items(rng, level, nm, n, cnt, depth):
     """script of a coroutine at depth `level` (0 = outermost): it drives its sub-coroutine
     through monitor `level` (mostly) and talks to the monitors above it"""
     items = []
@@ -870,12 +891,17 @@ def random_items(rng, level, nm, n, cnt):
     for _ in range(n):
         r = rng.random()
         if r < 0.5:
-            m = level if rng.random() < 0.85 else rng.randrange(nm)
+            # own monitor, or (re-entrant use, refused) the monitor of an enclosing level
+            m = level if rng.random() < 0.85 else rng.randrange(level + 1)
             items.append(["call", m, random_call(rng, first=(ncalls == 0)), rng.choice([0, 0, 1, 2])])
             ncalls += 1
         elif r < 0.75 and level > 0:
             cnt["oob"] += 1
-            m = rng.randrange(level) if rng.random() < 0.85 else rng.randrange(nm)
+            # only monitors this coroutine is (possibly) driven through, or spare ones that nobody
+            # drives with (-> "Monitor not active"); calling oob() of a monitor that is in use
+            # by somebody ELSE's suspended call is a misuse outside the property
+            spare = list(range(depth, nm))
+            m = rng.choice(spare) if spare and rng.random() < 0.15 else rng.randrange(level)
             items.append(["oob", m, 50 + cnt["oob"]])
         elif r < 0.9:
             cnt["tok"] += 1
@@ -916,7 +942,7 @@ def gen_nest(rng, tier):
         p = renumber(with_oob(rng, p, min(nm, depth), 0.6), cnt)
         node = ["body", p]
         for level in reversed(range(depth)):
-            node = ["mid", random_items(rng, level, nm, rng.choice([2, 3, 4, 6]), cnt), node]
+            node = ["mid", random_items(rng, level, nm, rng.choice([2, 3, 4, 6]), cnt, depth), node]
         mode = rng.choice([0, 0, 0, 1, 1, 2])
         if mode == 1:
             ops = [["send", None]] + [rng.choice([["send", None], ["send", 31], ["send", 32],
